@@ -11,28 +11,26 @@
     the former witnesses are regression examples ([C10_former_witnesses_now_restart]), and the
     guard [op_nonempty] is dropped from every theorem below.
 
-    FULL STATEMENTS (kept visible) and what is proved:
+    FULL STATEMENTS and what is proved:
       (1) for every state s reachable by operations, clean restarts and crashes, every operation
           o and every k: xstep s XRestart and xstep s (XCrash k o) are Ok.
-          PARTIAL: [C10_startup_never_fails_any_cut_partial]: EVERY crash point of every operation
-          and the clean restart, for s in [reachable_g].  Remaining guards: [op_bounded] and
-          [step_adm] of MirrorTotal (header heights + 1 < 2^64; the next validator set of an
-          accepted / replayed header has non-zero power; a replayed round is a uint32) and "that
-          next set has at least one key" - a MODEL-ONLY guard (in Go non-zero power implies a key;
-          [C10_keys_guard_needed_in_model] shows the model needs it); the HISTORY leading to s may
-          crash anywhere except between the committed-header write and the position write of a
-          commit ([clean_cut]): at that point start-up is shown total, but not that INV holds
-          again afterwards.
+          PROVED: [C10_startup_never_fails], for [reachable_g] = closure under ALL crash points
+          (the crash between the committed-header write and the position write included:
+          [C10_restart_recommits_after_header_write]).  Remaining guards ([wf_op]): [op_bounded]
+          and [step_adm] of MirrorTotal (header heights + 1 < 2^64; the next validator set of an
+          accepted / applied replayed header has non-zero power; a replayed round is a uint32) and
+          "that next set has at least one key" - a MODEL-ONLY guard (in Go non-zero power implies a
+          key; [C10_keys_guard_needed_in_model] shows the model needs it).
       (2) nothing committed is lost, the stored position does not regress, the voting height is
-          at most one above what the uninterrupted operation reaches:
-          [C10_no_regression_partial], [C10_crash_height_bound_partial] (same guards).
+          at most one above what the uninterrupted operation reaches: [C10_no_regression],
+          [C10_crash_height_bound] (same guards, every crash point).
       (3) cinv / auth_state / sinv / hinv (INV), tinv and the store invariant SI hold after every
-          xstep: [C10_invariants_after_every_xstep_partial] (same guards);
-          for ARBITRARY stores satisfying SI: [C10_restart_total_on_store_invariant] (full). *)
+          xstep: [C10_invariants_after_every_xstep] (same guards, every crash point);
+          for ARBITRARY stores satisfying SI: [C10_restart_total_on_store_invariant]. *)
 From Coq Require Import List NArith.
 From GV Require Import Base.Ints Gen.Kernel Model.Mirror Proofs.MirrorAuth Proofs.MirrorChain Proofs.MirrorCert
   Proofs.MirrorTotal Proofs.MirrorResumeWit Proofs.MirrorResumeInv Proofs.MirrorResumeStart
-  Proofs.MirrorResumeOps Proofs.MirrorResumeOps4 Proofs.MirrorResumeOps5 Proofs.MirrorResume Proofs.MirrorResumeHeight Proofs.MirrorResumeEx.
+  Proofs.MirrorResumeOps Proofs.MirrorResumeOps4 Proofs.MirrorResumeOps5 Proofs.MirrorResumeAhead2 Proofs.MirrorResume Proofs.MirrorResumeHeight Proofs.MirrorResumeEx Proofs.MirrorResumeReload.
 Import ListNotations.
 Local Open Scope N_scope.
 
@@ -74,68 +72,114 @@ Proof.
 Qed.
 Print Assumptions C10_restart_total_on_store_invariant.
 
-(** (3) partial: the invariants after every step of [xstep] *)
-Theorem C10_invariants_after_every_xstep_partial : forall ih ivs s,
+(** (3) the invariants after every step of [xstep] - operations, clean restarts and crashes at
+    EVERY point (also between the committed-header write and the position write of a commit) *)
+Theorem C10_invariants_after_every_xstep : forall ih ivs s,
   1 <= ih -> vwf ivs -> reachable_g ih ivs s ->
   INV ih ivs s /\ tinv s /\ SI ih ivs (stores_of s).
 Proof. exact reachable_g_INV. Qed.
-Print Assumptions C10_invariants_after_every_xstep_partial.
+Print Assumptions C10_invariants_after_every_xstep.
 
-(** (1) partial: start-up never fails *)
-Theorem C10_startup_never_fails_partial : forall ih ivs s,
+(** (1) start-up never fails: after a clean restart and after a crash at EVERY point of every
+    admissible operation the mirror comes up, in a state that is reachable again (so the
+    statement applies to it as well) *)
+Theorem C10_startup_never_fails : forall ih ivs s,
   1 <= ih -> vwf ivs -> reachable_g ih ivs s ->
-  (exists s', xstep s XRestart = Ok (s', 0)) /\
-  (forall o k s1 r, step s o = Ok (s1, r) -> wf_op o r -> clean_cut s o k ->
-     exists s', xstep s (XCrash k o) = Ok (s', r)).
-Proof. exact startup_never_fails_partial. Qed.
-Print Assumptions C10_startup_never_fails_partial.
+  (exists s', xstep s XRestart = Ok (s', 0) /\ reachable_g ih ivs s') /\
+  (forall o k s1 r, step s o = Ok (s1, r) -> wf_op o r ->
+     exists s', xstep s (XCrash k o) = Ok (s', r) /\ reachable_g ih ivs s').
+Proof. exact startup_never_fails. Qed.
+Print Assumptions C10_startup_never_fails.
 
-(** (1) partial, EVERY crash point (also the one between the committed-header write and the
-    position write of a commit): the restart after the crash comes up *)
-Theorem C10_startup_never_fails_any_cut_partial : forall ih ivs s,
-  1 <= ih -> vwf ivs -> reachable_g ih ivs s ->
-  forall o k s1 r, step s o = Ok (s1, r) -> wf_op o r ->
-     exists s', xstep s (XCrash k o) = Ok (s', r).
-Proof. exact startup_never_fails_any_cut. Qed.
-Print Assumptions C10_startup_never_fails_any_cut_partial.
+(** the crash between the committed-header write and the position write of a commit: start-up on
+    the stores of the committing state [m] plus the committed-header write returns EXACTLY what
+    start-up on the stores of [m] returns - its re-evaluation commits the block again *)
+Theorem C10_restart_recommits_after_header_write : forall ih ivs m p vals log,
+  1 <= ih -> vwf ivs -> K ih ivs m -> commit_cond m p ->
+  restart ih ivs (apply_wr (stores_of m) (WHdr (hd_height (ph_hdr p)) (ph_hdr p, shift_pcp m))) vals log =
+  restart ih ivs (stores_of m) vals log.
+Proof. exact restart_ahead_same. Qed.
+Print Assumptions C10_restart_recommits_after_header_write.
 
-(** every clean write prefix of every admissible operation leaves stores satisfying [SI]
-    that lie between the stores before and the stores after the uninterrupted operation *)
-Theorem C10_crash_stores_satisfy_store_invariant_partial : forall ih ivs s o k s1 r,
+(** what start-up sees after a crash at any point: stores satisfying [SI] that lie between the
+    stores before and the stores after the uninterrupted operation (the crash stores themselves
+    at a clean cut) *)
+Theorem C10_crash_stores_satisfy_store_invariant : forall ih ivs s o k s1 r,
   1 <= ih -> vwf ivs -> reachable_g ih ivs s ->
-  step s o = Ok (s1, r) -> wf_op o r -> clean_cut s o k ->
-  let st := fold_left apply_wr (firstn k (skipn (List.length (st_log s)) (st_log s1))) (stores_of s) in
-  SI ih ivs st /\ sadv (stores_of s) st /\ sadv st (stores_of s1).
+  step s o = Ok (s1, r) -> wf_op o r ->
+  exists stc, SI ih ivs stc /\ sadv (stores_of s) stc /\ sadv stc (stores_of s1) /\
+              (clean_cut s o k -> stc = crash_stores s s1 k) /\
+              forall vals log, restart ih ivs (crash_stores s s1 k) vals log = restart ih ivs stc vals log.
 Proof. exact crash_stores_between. Qed.
-Print Assumptions C10_crash_stores_satisfy_store_invariant_partial.
+Print Assumptions C10_crash_stores_satisfy_store_invariant.
 
-(** (2) partial: no committed header is lost; the stored position (voting height, round,
+(** (2) no committed header is lost; the stored position (voting height, round,
     committing height, round) does not regress: heights do not decrease, and while the voting
     height stays the committing height and round stay and the voting round moves by round
     increments only ([rsteps]: equal to >= as long as the round counter does not wrap at 2^32) *)
-Theorem C10_no_regression_partial : forall ih ivs s x s' res,
+Theorem C10_no_regression : forall ih ivs s x s' res,
   1 <= ih -> vwf ivs -> reachable_g ih ivs s -> xwf s x res -> xstep s x = Ok (s', res) ->
   (forall h hc, In (h, hc) (st_hdrs s) -> In (h, hc) (st_hdrs s')) /\
   n_vh (st_nhr s) <= n_vh (st_nhr s') /\ n_ch (st_nhr s) <= n_ch (st_nhr s') /\
   (n_vh (st_nhr s') = n_vh (st_nhr s) ->
      n_ch (st_nhr s') = n_ch (st_nhr s) /\ n_cr (st_nhr s') = n_cr (st_nhr s) /\
      rsteps (n_vr (st_nhr s)) (n_vr (st_nhr s'))).
-Proof. exact no_regression_partial. Qed.
-Print Assumptions C10_no_regression_partial.
+Proof. exact no_regression. Qed.
+Print Assumptions C10_no_regression.
 
-(** (2) partial, how far AHEAD: at most one height above the uninterrupted operation *)
-Theorem C10_crash_height_bound_partial : forall ih ivs s o k s1 r s',
+(** (2) how far AHEAD: at most one height above the uninterrupted operation, at every crash point *)
+Theorem C10_crash_height_bound : forall ih ivs s o k s1 r s',
   1 <= ih -> vwf ivs -> reachable_g ih ivs s ->
-  step s o = Ok (s1, r) -> wf_op o r -> clean_cut s o k ->
+  step s o = Ok (s1, r) -> wf_op o r ->
   xstep s (XCrash k o) = Ok (s', r) ->
   v_h (k_vot s) <= v_h (k_vot s') /\ v_h (k_vot s') <= v_h (k_vot s1) + 1.
 Proof. exact crash_height_bound. Qed.
-Print Assumptions C10_crash_height_bound_partial.
+Print Assumptions C10_crash_height_bound.
 
-(** the hypotheses are satisfiable on a history with a crash in the middle of a commit *)
+(** the hypotheses are satisfiable on histories with a crash in the middle of a commit: after the
+    first write (the precommits) and after the second write (the committed header) *)
 Theorem C10_resume_hypotheses_satisfiable :
-  vwf ex_vs /\ reachable_g 1 ex_vs e_s2 /\ st_nhr e_s1 = (1, 0, 0, 0) /\ st_nhr e_s2 = (2, 0, 1, 0).
+  vwf ex_vs /\ reachable_g 1 ex_vs e_s2 /\ st_nhr e_s1 = (1, 0, 0, 0) /\ st_nhr e_s2 = (2, 0, 1, 0) /\
+  reachable_g 1 ex_vs e_s3 /\ st_nhr e_s3 = (2, 0, 1, 0).
 Proof.
-  split; [exact ex_vs_vwf|]. destruct e_s2_reachable as (A&B&C&_). repeat split; assumption.
+  split; [exact ex_vs_vwf|]. destruct e_s2_reachable as (A&B&C&_). destruct e_s3_reachable as (D&E&_).
+  repeat split; assumption.
 Qed.
 Print Assumptions C10_resume_hypotheses_satisfiable.
+
+(** * "Without loss": persisted votes are reloaded *)
+
+(** the view / round-store correspondence [Y] is an invariant of every reachable state: for the
+    voting and the next-round view, each vote map is empty or is - up to signer sets, target by
+    target - what loading the view's round-store cell gives; each proposed header of the view is
+    in the cell (by hash) or among the replayed headers; the summary names the most voted block *)
+Theorem C10_view_store_correspondence : forall ih ivs s,
+  1 <= ih -> vwf ivs -> reachable_g ih ivs s -> Y s.
+Proof. exact reachable_correspondence. Qed.
+Print Assumptions C10_view_store_correspondence.
+
+(** after a clean restart: the round store, the replayed headers and the committed headers are
+    all still there; and if the restarted mirror is at the same stored position, its voting and
+    its next-round view hold again every signer (prevotes and precommits, target by target) that
+    the view held before, and for every proposed header one with the same hash (a replayed header
+    is handed back by the round store only together with a stored precommit for its hash).
+    PARTIAL: the committing view is not covered; when the restarted mirror is AHEAD (known
+    finding) only the first part applies - the votes are in the round store, not in a view. *)
+Theorem C10_persisted_votes_reloaded_partial : forall ih ivs s s',
+  1 <= ih -> vwf ivs -> reachable_g ih ivs s -> xstep s XRestart = Ok (s', 0) ->
+  (st_rounds s' = st_rounds s /\ st_replayed s' = st_replayed s /\
+   forall h x, In (h, x) (st_hdrs s) -> In (h, x) (st_hdrs s')) /\
+  (st_nhr s' = st_nhr s ->
+     (votes_held_again (k_vot s) (k_vot s') /\ phs_held_again (st_replayed s) (k_vot s) (k_vot s')) /\
+     (votes_held_again (k_nxt s) (k_nxt s') /\ phs_held_again (st_replayed s) (k_nxt s) (k_nxt s'))).
+Proof. exact restart_reloads. Qed.
+Print Assumptions C10_persisted_votes_reloaded_partial.
+
+(** the same after a crash that let every write of the operation land, relative to the state the
+    uninterrupted operation produces *)
+Theorem C10_persisted_votes_reloaded_after_full_crash_partial : forall ih ivs s o s1 r k s',
+  1 <= ih -> vwf ivs -> reachable_g ih ivs s -> step s o = Ok (s1, r) -> wf_op o r ->
+  (List.length (st_log s1) - List.length (st_log s) <= k)%nat ->
+  xstep s (XCrash k o) = Ok (s', r) -> reloaded s1 s'.
+Proof. exact crash_after_all_writes_reloads. Qed.
+Print Assumptions C10_persisted_votes_reloaded_after_full_crash_partial.
